@@ -82,6 +82,10 @@ NOTE_APPEND = {
  "C11": " Own-identity exploration: what peers remember of a previous incarnation of the local id never changes the restarted node.",
  "C13": " Two-message sequences (every ordered pair of corpus messages with a node id replaced by invalid UTF-8). Nested-stream cases, one worker process each: finding F4 (unbounded recursion when skipping an unknown value) reproduced as KNOWN-FINDING.",
  "C16": " Client listener stopped in the middle of a slow reconnect handshake (finding D11 repaired by a fix: commit); tenant upstreams in the mixed-token-lifetime cases.",
+ "C07": " Tunnel cases include the upstream end speaking first (greeting on accept) on all five paths.",
+ "C09": " Remote JWKS endpoint rotated {A} -> {A,B} -> {B} -> {A} while the node runs (cache TTL 300ms, timeout unset / 5s): tokens of a key no longer published are refused on all three ports.",
+ "C15": " Every checked selection is followed on the same instance by a selection of each endpoint without local upstreams (selection must not depend on earlier selections; such memory is invisible to the canonical state).",
+ "C18": " Two listeners of one endpoint on the lost node; a gracefully stopped node must end up listed without endpoints.",
  "C19": " Not-a-number threshold / shed rate are part of the grid (finding D12 repaired by a fix: commit); the largest unsigned minimum is part of the grid (finding D13 repaired by a fix: commit).",
 }
 TECH_APPEND = {
